@@ -1,0 +1,8 @@
+//go:build verif
+
+package core
+
+// headerBatchCount is the number of header hashes per stored page. The
+// verification harness builds with small pages so that page boundaries
+// (2000 headers in production) are crossed by short simulated chains.
+const headerBatchCount = 16
